@@ -90,6 +90,10 @@ def run(ctx):
     ops = []
     for spec in ([], [0], [0, 0], [1, 2, 3], [65535], [65536], [65533], [65534], [32766, 32765], [32766, 32766], [32767, 32767], [21843, 21843, 21843], [21844, 21843, 21843], [10] * 100, [0] * 32767, [0] * 32768):
         ops.append('sct.ser ' + (','.join(hexs(rbytes(rng, n)) if n else '-' for n in spec) or '.'))
+    logid = rbytes(rng, 32)
+    for els in ([b'\x00' + logid + b'\x01\x02\x03', b'\x00' + logid + b'\x09\x09\x09\x09'], [b'\x00' + logid + b'a' * 40] * 2, [b'\x00' + logid + b'a' * 40, b'\x01' + logid + b'a' * 40],
+                [b'\x00' + logid, b'\x00' + logid], [b'\x00' + logid + b'x', b'\x00' + rbytes(rng, 32) + b'x', b'\x00' + logid + b'y'], [b'same'] * 3, [b'', b''], [b'\x00' * 33, b'\x00' * 34]):
+        ops.append('sct.ser ' + ','.join(hexs(e_) if e_ else '-' for e_ in els))
     for _ in range(100 if not thorough else 2000):
         ops.append('sct.ser ' + (','.join(hexs(rbytes(rng, rng.choice([0, 1, 5, 100, 300]))) for _ in range(rng.randrange(0, 6))) or '.'))
     ctx.both(ops)
